@@ -34,6 +34,8 @@ Tree(id) ==
     [] id = "c3nob"  -> {Di(<<>>, "c"), Di(<<"c">>, "a"), Fi(<<"c", "a">>, "b"), Di(<<>>, "a"), Fi(<<"a">>, "b")}
     [] id = "c3noa"  -> {Di(<<>>, "c"), Di(<<"c">>, "a"), Fi(<<"c", "a">>, "b"), Fi(<<>>, "b")}
     [] id = "c3none" -> {Di(<<>>, "c"), Di(<<"c">>, "a"), Fi(<<"c", "a">>, "b")}
+    \* pkg.a.b.a exists: `import a.b; import b.a;` resolves completely if a is taken from the enclosing scope first
+    [] id = "cyc4"   -> {Di(<<>>, "a"), Di(<<"a">>, "b"), Fi(<<"a", "b">>, "a"), Fi(<<>>, "b")}
     [] id = "full7"  -> {Di(<<>>, "a"), Fi(<<"a">>, "a"), Di(<<"a">>, "b"), Di(<<>>, "b"), Fi(<<"b">>, "a"), Fi(<<"b">>, "b")}
 
 DiscUniverse ==
@@ -153,6 +155,18 @@ FamChain(b) ==
           Pr("chain", <<Imp(sc, <<Last(X), "f">>, 0), Imp(sc, X, 0)>>, {}, 3, <<"f">>)} :
          X \in NamedMod(b), sc \in {M(b.site), B(2)}}
 
+(* imports of one scope that wait for each other (x.y introduces y, y.x introduces x), in both orders, next to an *)
+(* independent import whose first segment is one of the two names, before / between / behind them: whatever the     *)
+(* enclosing scopes declare under these names, no order may make the cycle resolve                                  *)
+FamCycle(b) ==
+  UNION {UNION {
+     {Pr("cycle", <<Imp(sc, <<x, y>>, 0), Imp(sc, <<y, x>>, 0)>>, {}, 3, rf),
+      Pr("cycle", <<Imp(sc, <<x, "k">>, 0), Imp(sc, <<x, y>>, 0), Imp(sc, <<y, x>>, 0)>>, {}, 3, rf),
+      Pr("cycle", <<Imp(sc, <<x, y>>, 0), Imp(sc, <<x, "k">>, 0), Imp(sc, <<y, x>>, 0)>>, {}, 3, rf),
+      Pr("cycle", <<Imp(sc, <<x, y>>, 0), Imp(sc, <<y, x>>, 0), Imp(sc, <<x, "k">>, 0)>>, {}, 3, rf)}
+     : sc \in {M(b.site), B(1), B(2)}, rf \in {<<"k">>, <<"f">>}}
+     : <<x, y>> \in {<<"a", "b">>, <<"b", "a">>}}
+
 (* a local variable or parameter named like a constant, with and without an import of that name *)
 LocalSets == {{Lk(1, TRUE)}, {Lk(1, FALSE)}, {Lk(2, FALSE)}, {Lk(3, FALSE)}, {Lk(1, TRUE), Lk(3, FALSE)}}
 FamShadow(b) ==
@@ -229,7 +243,7 @@ FamDisc(b) ==
 Fam(f, b) ==
   CASE f = "path" -> FamPath(b) [] f = "imp1" -> FamImp1(b) [] f = "list" -> FamList(b)
     [] f = "modimp" -> FamModImp(b) [] f = "chain" -> FamChain(b) [] f = "shadow" -> FamShadow(b)
-    [] f = "two" -> FamTwo(b) [] f = "other" -> FamOther(b) [] f = "chain3" -> FamChain3(b) [] f = "inout" -> FamInOut(b) [] f = "sib" -> FamSib(b)
+    [] f = "two" -> FamTwo(b) [] f = "other" -> FamOther(b) [] f = "chain3" -> FamChain3(b) [] f = "inout" -> FamInOut(b) [] f = "sib" -> FamSib(b) [] f = "cycle" -> FamCycle(b)
 
 Probes(b) == IF b.tree = "disc" THEN FamDisc(b) ELSE UNION {Fam(f, b) : f \in Families}
 
